@@ -962,6 +962,56 @@ fn check_slicing(ctx: &Ctx, stats: &Stats, lens: &[usize], fill: u8) {
                 Err(_) => errs.push(format!("strip_suffix[{k}] refused a real suffix")),
             }
         }
+        // byte-level suffixes/prefixes that are NOT label-aligned must not be
+        // taken for suffixes/prefixes (with fill octet 1 every mid-label
+        // position looks like the start of a label)
+        for k in 0..abs.len() {
+            let aligned = bnd.contains(&k);
+            if let Ok(base) = Name::from_octets(abs[k..].to_vec()) {
+                let is_suffix = aligned;
+                if name.ends_with(&base) != is_suffix {
+                    errs.push(format!("Name::ends_with wrong for byte offset aligned={aligned}"));
+                }
+                match name.clone().strip_suffix(&base) {
+                    Ok(r) => {
+                        if !is_suffix || r.as_slice() != &abs[..k] || validate_name(r.as_slice(), false).is_err() {
+                            errs.push(format!("Name::strip_suffix accepted/returned wrong result for aligned={aligned}"));
+                        }
+                    }
+                    Err(_) => {
+                        if is_suffix {
+                            errs.push("Name::strip_suffix refused a real suffix".into());
+                        }
+                    }
+                }
+            }
+            if k <= rel.len() {
+                if let Ok(base) = RelativeName::from_octets(rel[k..].to_vec()) {
+                    let is_suffix = aligned;
+                    if rname.ends_with(&base) != is_suffix {
+                        errs.push(format!("RelativeName::ends_with wrong for byte offset aligned={aligned}"));
+                    }
+                    let mut r = rname.clone();
+                    match r.strip_suffix(&base) {
+                        Ok(()) => {
+                            if !is_suffix || r.as_slice() != &rel[..k] || validate_name(r.as_slice(), false).is_err() {
+                                errs.push(format!("RelativeName::strip_suffix accepted/returned wrong result for aligned={aligned}"));
+                            }
+                        }
+                        Err(_) => {
+                            if is_suffix {
+                                errs.push("RelativeName::strip_suffix refused a real suffix".into());
+                            }
+                        }
+                    }
+                }
+                if let Ok(pre) = RelativeName::from_octets(rel[..k].to_vec()) {
+                    if rname.starts_with(&pre) != aligned || name.starts_with(&pre) != aligned {
+                        errs.push(format!("starts_with wrong for byte offset aligned={aligned}"));
+                    }
+                }
+            }
+        }
         // label iteration both ways agrees with lens
         let f: Vec<usize> = name.iter().take(300).map(|l| l.len()).collect();
         let mut want: Vec<usize> = lens.to_vec();
